@@ -5,6 +5,8 @@ Three kinds of cases
          compared EXACTLY with the Coq model Trunc/Select.v and with an independent restatement of
          the rule (plain Fractions).
   val  : SVDParameters validation (types and ranges of the three numeric fields).
+  tsvd : truncated_tensor_svd / contr_truncated_svd_splitting on a random tensor and leg bipartition,
+         checked against the harness' own numpy SVD of the matricisation.
   tree : recursive_truncation / svd_truncation on a random tree state; structure, bond limits,
          identity-when-nothing-is-discarded and the error bound are checked against an independent
          dense contraction; every call of truncate_singular_values made on the way is recorded and
@@ -342,6 +344,8 @@ class C10(Prop):
             "(set by attribute assignment), nan, max_bond_dim=0, unsorted and negative inputs; cases on which a float rounding "
             "could change a decision (screened with exact rationals before running) are kept out of the exact tie and checked by "
             "the oracle with both sides of the boundary admissible (counted). val: all max_bond_dim kinds x tolerance kinds. "
+            "tsvd: random real/complex tensors (2..4 legs, dims 1..4, optional exact low rank), random leg bipartition and order, "
+            "random parameters, the three contraction modes. "
             "tree: random trees (1..7 nodes), random bond/physical dimensions, random norm scale, both routines, random "
             "parameters. non-trivial sv = something is discarded or rescaled; tree = at least one bond; distinct by content")
     clauses = [
@@ -363,8 +367,10 @@ class C10(Prop):
               "runtime check against an independent dense contraction"),
         ("V", "tree level, no renormalisation: ||psi - psi'|| <= (sum of all discarded values) * max(1, ||psi||): runtime check; "
               "the discarded values are re-derived by the oracle from the recorded full spectra"),
-        ("O", "truncated_tensor_svd slices U/Vh to the kept length and contr_truncated_svd_splitting absorbs the kept values: "
-              "covered only through the tree-level dense comparison (LAPACK SVD is not modelled)"),
+        ("V", "truncated_tensor_svd / contr_truncated_svd_splitting on random tensors and leg bipartitions: number of kept values "
+              "= the rule applied to the harness' own singular values, U/Vh sliced to isometries of that width, U S Vh = (rescaled) "
+              "best rank-k approximation, ||T - U S Vh|| = Frobenius weight of the discarded values <= their sum, the three "
+              "contraction modes multiply back to U S Vh: runtime check (LAPACK SVD is not modelled)"),
     ]
     trusted_base = [
         "spectra and tolerances enter the model as the exact rational values of the doubles; every case of the exact tie is "
@@ -494,6 +500,24 @@ class C10(Prop):
                     for t in tols:
                         if r in ("0", "-inf") or t in ("0", "-inf") or ctx.thorough():
                             cases.append({"kind": "val", "mbd": m, "rel": r, "tot": t})
+        # tensor level: truncated_tensor_svd / contr_truncated_svd_splitting
+        ntsvd = (ctx.scale(150, 2000) if stream == "main" else 100) * budget_scale
+        for i in range(ntsvd):
+            nd = rng.choice([2, 2, 3, 3, 4])
+            shape = [rng.choice([1, 2, 2, 3, 4]) for _ in range(nd)]
+            legs = list(range(nd))
+            rng.shuffle(legs)
+            cut = rng.randint(1, nd - 1)
+            mode = rng.random()
+            if mode < 0.2:
+                prm = dict(mbd="inf", rel="-inf", tot="-inf", sum_trunc=False)
+            else:
+                prm = dict(mbd=rng.choice([1, 2, 2, 3, 4, "inf"]),
+                           rel=rng.choice(["-inf", "0", "1e-15", "0.05", "0.125", "0.25", "0.5"]),
+                           tot=rng.choice(["-inf", "0", "1e-15", "0.1", "0.5", "2"]), sum_trunc=rng.random() < 0.35)
+            cases.append({"kind": "tsvd", "seed": rng.randrange(10 ** 9), "shape": shape, "u_legs": legs[:cut], "v_legs": legs[cut:],
+                          "contr": rng.choice(["ucontr", "vcontr", "equal"]), "rank": rng.choice([None, None, 1, 2]),
+                          "complex": rng.random() < 0.7, "renorm": rng.random() < 0.3, "sum_renorm": rng.random() < 0.5, **prm})
         # tree level
         ntree = (ctx.scale(220, 3000) if stream == "main" else 150) * budget_scale
         for i in range(ntree):
@@ -520,6 +544,9 @@ class C10(Prop):
             return len(case["s"]) >= 2
         if case["kind"] == "tree":
             return len(case["parents"]) >= 2
+        if case["kind"] == "tsvd":
+            return min(int(np.prod([case["shape"][i] for i in case["u_legs"]])),
+                       int(np.prod([case["shape"][i] for i in case["v_legs"]]))) >= 2
         return True
 
     def distribution(self, cases):
@@ -592,6 +619,63 @@ class C10(Prop):
         except Exception as e:  # noqa
             return {"verdict": f"other:{type(e).__name__}: {e}"}
 
+    def _tsvd_impl(self, case):
+        from pytreenet.util.tensor_splitting import truncated_tensor_svd, contr_truncated_svd_splitting, ContractionMode
+        nprs = np.random.RandomState(case["seed"])
+        shape = tuple(case["shape"])
+        ul, vl = tuple(case["u_legs"]), tuple(case["v_legs"])
+        du = int(np.prod([shape[i] for i in ul]))
+        dv = int(np.prod([shape[i] for i in vl]))
+
+        def rnd(sh):
+            a = nprs.standard_normal(sh)
+            return a + 1j * nprs.standard_normal(sh) if case["complex"] else a
+        if case["rank"] is None:
+            M = rnd((du, dv))
+        else:
+            r = case["rank"]
+            M = rnd((du, r)) @ rnd((r, dv))
+        # the tensor whose (u_legs | v_legs) matricisation is M
+        T = M.reshape([shape[i] for i in ul] + [shape[i] for i in vl]).transpose(np.argsort(list(ul) + list(vl)))
+        T = np.ascontiguousarray(T)
+        p, verdict = make_params(mbd_value(case["mbd"]), float(case["rel"]), float(case["tot"]), case["renorm"],
+                                 case["sum_trunc"], case["sum_renorm"])
+        ob = {"verdict": verdict, "du": du, "dv": dv}
+        U0, S0, V0 = np.linalg.svd(M, full_matrices=False)     # the harness' own decomposition
+        ob["full_s"] = S0.tolist()
+        ob["normM"] = float(np.linalg.norm(M))
+        try:
+            with warnings.catch_warnings():
+                warnings.simplefilter("ignore")
+                with np.errstate(all="ignore"):
+                    T_in = T.copy()
+                    u, s, vh = truncated_tensor_svd(T, ul, vl, p)
+                    a, b = contr_truncated_svd_splitting(T, ul, vl, ContractionMode(case["contr"]), p)
+            ob["input_unchanged"] = bool(np.array_equal(T, T_in))
+            k = len(s)
+            ob["s"] = np.asarray(s, dtype=float).tolist()
+            ob["u_shape"], ob["vh_shape"] = list(u.shape), list(vh.shape)
+            ob["a_shape"], ob["b_shape"] = list(a.shape), list(b.shape)
+            ob["exp_u_shape"] = [shape[i] for i in ul] + [k]
+            ob["exp_vh_shape"] = [k] + [shape[i] for i in vl]
+            um, vm = u.reshape(du, -1), vh.reshape(-1, dv)
+            ob["iso_u"] = float(np.linalg.norm(um.conj().T @ um - np.eye(um.shape[1])))
+            ob["iso_v"] = float(np.linalg.norm(vm @ vm.conj().T - np.eye(vm.shape[0])))
+            recon = um @ np.diag(np.asarray(s)) @ vm
+            kk = min(k, len(S0))
+            fac = (float(np.sum(S0)) / float(np.sum(S0[:kk]))) if (case["renorm"] and np.sum(S0[:kk]) != 0) else 1.0
+            best = (U0[:, :kk] * (fac * S0[:kk])) @ V0[:kk, :]
+            ob["recon_dev"] = float(np.linalg.norm(recon - best))
+            ob["err"] = float(np.linalg.norm(recon - M))
+            ob["contr_dev"] = float(np.linalg.norm(a.reshape(du, -1) @ b.reshape(-1, dv) - recon)) \
+                if a.reshape(du, -1).shape[1] == b.reshape(-1, dv).shape[0] else float("inf")
+            ob["gap"] = float(S0[kk - 1] - S0[kk]) if 0 < kk < len(S0) else float("inf")
+        except Exception as e:  # noqa
+            import traceback
+            ob["exception"] = f"{type(e).__name__}: {e}"
+            ob["tb"] = traceback.format_exc()[-1200:]
+        return ob
+
     def _tree_impl(self, case):
         from pytreenet.util import tensor_splitting as ts
         from pytreenet.core.truncation.recursive_truncation import recursive_truncation
@@ -622,8 +706,20 @@ class C10(Prop):
             work.canonical_form(f"n{case['centre']}")
             canon = util.dense_vec(work, ids)
             ob["canon_dev"] = float(np.linalg.norm(canon - before))
+        import pytreenet.core.truncation.recursive_truncation as rt_mod
+        import pytreenet.core.truncation.svd_truncation as st_mod
         calls = []
+        visits = []
         orig = ts.truncate_singular_values
+        orig_gp, orig_cs = rt_mod.get_truncation_projector, st_mod.contract_and_split_with_parent
+
+        def rec_gp(node, node_tensor, child_id, svd_parameters):
+            visits.append([child_id, node.identifier])
+            return orig_gp(node, node_tensor, child_id, svd_parameters)
+
+        def rec_cs(node_id, tree, params):
+            visits.append([node_id, tree.nodes[node_id].parent])
+            return orig_cs(node_id, tree, params)
 
         def recording(s, params):
             s_in = np.array(s, dtype=float, copy=True)
@@ -632,6 +728,7 @@ class C10(Prop):
                           params is p))
             return r
         ts.truncate_singular_values = recording
+        rt_mod.get_truncation_projector, st_mod.contract_and_split_with_parent = rec_gp, rec_cs
         try:
             with warnings.catch_warnings():
                 warnings.simplefilter("ignore")
@@ -667,7 +764,9 @@ class C10(Prop):
             ob["tb"] = traceback.format_exc()[-1200:]
         finally:
             ts.truncate_singular_values = orig
+            rt_mod.get_truncation_projector, st_mod.contract_and_split_with_parent = orig_gp, orig_cs
         ob["calls"] = calls
+        ob["visits"] = visits
         return ob
 
     def impl(self, ctx, cases):
@@ -679,6 +778,8 @@ class C10(Prop):
                     out.append(self._sv_impl(c))
                 elif c["kind"] == "val":
                     out.append(self._val_impl(c))
+                elif c["kind"] == "tsvd":
+                    out.append(self._tsvd_impl(c))
                 else:
                     ob = self._tree_impl(c)
                     out.append(ob)
@@ -944,6 +1045,9 @@ class C10(Prop):
                 return f"{case['algo']}: bond dimension {b} outside [1, {case['mbd']}] (bonds {ob['bonds']})"
         if len(ob["calls"]) != n - 1:
             return f"{case['algo']}: {len(ob['calls'])} truncations for {n - 1} bonds"
+        bonds_expected = sorted([f"n{i}", f"n{case['parents'][i]}"] for i in range(1, n))
+        if sorted(ob["visits"]) != bonds_expected:
+            return f"{case['algo']}: bonds truncated {ob['visits']}, expected every (child, parent) bond exactly once"
         if not ob["finite"]:
             return f"{case['algo']}: state not finite after truncation"
         # re-derive what each truncation discards from the recorded full spectrum
@@ -984,6 +1088,51 @@ class C10(Prop):
                         f"max(1, norm {ob['norm']:.3e}) = {bound:.6e}")
         return None
 
+    def _oracle_tsvd(self, case, ob):
+        if "exception" in ob:
+            return f"truncated_tensor_svd raised {ob['exception']}"
+        if ob["verdict"] != "Accept":
+            return f"valid parameters rejected: {ob['verdict']}"
+        if not ob["input_unchanged"]:
+            return "the input tensor was modified"
+        s0 = ob["full_s"]
+        scale = max(1.0, ob["normM"])
+        relx = "-inf" if case["rel"] == "-inf" else Fraction(float(case["rel"]))
+        totx = "-inf" if case["tot"] == "-inf" else Fraction(float(case["tot"]))
+        sf = [Fraction(x) for x in s0]
+        cands = set()
+        for slack in (Fraction(1), 1 - Fraction(1, 10 ** 9), 1 + Fraction(1, 10 ** 9)):
+            ks = rule_from_text(sf, case["mbd"], relx, totx, case["sum_trunc"], case["sum_renorm"], slack)
+            if isinstance(ks, str):
+                return None                   # LAPACK did not return a descending spectrum
+            cands |= ks
+        k = len(ob["s"])
+        if k not in cands:
+            return f"keeps {k} of the singular values {s0} with {self._pstr(case)}; the rule gives {sorted(cands)}"
+        if ob["u_shape"] != ob["exp_u_shape"] or ob["vh_shape"] != ob["exp_vh_shape"]:
+            return f"U/Vh shapes {ob['u_shape']}, {ob['vh_shape']} for {k} kept values, expected {ob['exp_u_shape']}, {ob['exp_vh_shape']}"
+        fac = 1.0
+        if case["renorm"]:
+            if sum(s0[:k]) == 0:
+                return None
+            fac = sum(s0) / sum(s0[:k])
+        if any(abs(a - fac * b) > 1e-10 * scale for a, b in zip(ob["s"], s0[:k])):
+            return f"returned values {ob['s']} are not {'the rescaled ' if case['renorm'] else ''}leading singular values {s0[:k]}"
+        if ob["iso_u"] > 1e-10 or ob["iso_v"] > 1e-10:
+            return f"U or Vh is not an isometry after slicing ({ob['iso_u']:.2e}, {ob['iso_v']:.2e})"
+        if ob["gap"] > 1e-6 * scale and ob["recon_dev"] > 1e-9 * scale:
+            return f"U S Vh differs from the {'rescaled ' if case['renorm'] else ''}best rank-{k} approximation by {ob['recon_dev']:.3e}"
+        if not case["renorm"]:
+            disc = s0[k:]
+            fro = math.sqrt(sum(x * x for x in disc))
+            if abs(ob["err"] - fro) > 1e-9 * scale:
+                return f"||T - U S Vh|| = {ob['err']:.6e}, discarded Frobenius weight {fro:.6e}"
+            if ob["err"] > sum(disc) * (1 + 1e-9) + 1e-10 * scale:
+                return f"||T - U S Vh|| = {ob['err']:.6e} exceeds the sum of the discarded values {sum(disc):.6e}"
+        if ob["contr_dev"] > 1e-10 * scale:
+            return f"contr_truncated_svd_splitting({case['contr']}): product of the two tensors differs from U S Vh by {ob['contr_dev']:.3e}"
+        return None
+
     @staticmethod
     def _pstr(case):
         return (f"max_bond_dim={case['mbd']}, rel_tol={case['rel']}, total_tol={case['tot']}, renorm={case['renorm']}, "
@@ -997,6 +1146,8 @@ class C10(Prop):
             return None if w is None else f"{w} [{self._pstr(case)}]"
         if case["kind"] == "val":
             return self._oracle_val(case, ob)
+        if case["kind"] == "tsvd":
+            return self._oracle_tsvd(case, ob)
         return self._oracle_tree(case, ob)
 
     def classify(self, case, what, known):
